@@ -206,6 +206,7 @@ pub struct Opts {
 }
 
 static STOP: AtomicBool = AtomicBool::new(false);
+static HARNESS_BUG: AtomicBool = AtomicBool::new(false);
 
 struct Failure<I> {
     shard: usize,
@@ -299,7 +300,16 @@ fn run_random_shard<P: Prop>(
         if !failed.get() && STOP.load(Ordering::Relaxed) {
             return Ok(());
         }
-        let input = P::lower(&case);
+        let input = match guard::catch(|| P::lower(&case)) {
+            Ok(i) => i,
+            Err(p) => {
+                // a panic while building the input is a harness bug, never a violation
+                eprintln!("HARNESS BUG in lower(): {}", p.describe());
+                HARNESS_BUG.store(true, Ordering::Relaxed);
+                STOP.store(true, Ordering::Relaxed);
+                return Ok(());
+            }
+        };
         let mut tb = text_buf.borrow_mut();
         *tb = P::to_kv(&input).to_text();
         guard::publish(shard, tb.as_bytes());
@@ -474,6 +484,10 @@ pub fn run<P: Prop>(opts: &Opts) -> i32 {
     for (sig, n) in &stats.excluded_known {
         let text = known.iter().find(|(s, _)| s == sig).map(|(_, t)| t.clone()).unwrap_or_default();
         println!("KNOWN-FINDING: {} (hit {} times, excluded from the search)", text, n);
+    }
+    if HARNESS_BUG.load(Ordering::Relaxed) && failures.is_empty() {
+        eprintln!("INCONCLUSIVE property={} harness bug while generating inputs (see above)", P::ID);
+        code = 2;
     }
     if let Some(f) = failures.first() {
         if f.harness_bug {
